@@ -102,6 +102,9 @@ def gen_filter_pair(rng):
 
 def extra(tier, seed, rng, res, broken):
     import checklib.main as M
+    # the failing-input search behind reload_waits_for_the_lock: a notification made while another thread is inside Handle::modify
+    from checks import stressgen
+    stressgen.stress_phase('reloadbusy', tier, res, broken, seed)
     n = 300 if (tier == 'quick' and not broken) else 6000
     cases = [gen_filter_pair(rng) for _ in range(n)]
     outs, err = M.run_lines([M.bin_path('h_layers')], cases)
@@ -158,7 +161,7 @@ PROPERTY = {
                 "extracted call sequences and control shapes of both Layered impls: for every and_then tree of any shape and size and every history, the notification log equals the list specification "
                 "(refines_spec: each layer once per occurrence, inner before outer; each_layer_once_inner_first), a check is the conjunction asked from the outside in (veto_is_conjunction) and any layer's veto "
                 "stops delivery to all (event_veto_stops_all, meta_veto_stops_all). The model and the list specification are compared with real stacks (recording layers that log every notification kind, optionally "
-                "vetoing) wrapped at random in Box / Some / vec![_] / reload / and_then(Identity) / Box<dyn Collect> / Arc, with None and empty-Vec layers inserted; wrappers are erased on the model side.",
+                "vetoing) wrapped at random in Box / Some / vec![_] / reload / and_then(Identity) / Box<dyn Collect> / Arc, with None and empty-Vec layers inserted; wrappers are erased on the model side. The reload wrapper takes its lock blocking in every callback (reload_waits_for_the_lock, from reload.rs on every run); the search behind it is a real-thread run (reloadbusy): each kind of notification made while another thread is inside Handle::modify must reach the reloadable layer exactly once.",
         'note': "Trusted: Lean kernel; propext/Classical.choice/Quot.sound; the translator's classification of an impl body as `forward` (the only calls on the wrapped value are to the same-named method) — behaviour "
                 "of those bodies (e.g. calling twice) is covered by the differential run, not the table; pick_interest for unfiltered stacks is hand-modelled; callsite registration and the checks travel outer-first by design "
                 "(pick_interest short-circuit), so the order clause is proved for the data notifications. Repaired: F4/F5 (on_register_dispatch not forwarded by Box/Arc/Layered/fmt::Collector), Vec event_enabled/on_id_change, "
@@ -168,9 +171,10 @@ PROPERTY = {
     'lean_module': 'TracingModel.Props.C09',
     'namespace': 'C09',
     'units': ['Forwarding'],
-    'required_theorems': ['C09.traits_covered', 'C09.passthrough_collect', 'C09.passthrough_subscribe', 'C09.passthrough_filter', 'C09.table_data', 'C09.table_checks', 'C09.table_collect',
+    'required_theorems': ['C09.reload_waits_for_the_lock', 'C09.traits_covered', 'C09.passthrough_collect', 'C09.passthrough_subscribe', 'C09.passthrough_filter', 'C09.table_data', 'C09.table_checks', 'C09.table_collect',
                           'C09.each_layer_once_inner_first', 'C09.veto_is_conjunction', 'C09.refines_spec', 'C09.event_veto_stops_all', 'C09.meta_veto_stops_all', 'C09.absent_transparent', 'C09.f25_repaired', 'C09.layered_once_inner_first', 'C09.veto_stops_all'],
     'streams': [_n, _p, _w],
+    'extra_bins': ['h_stress'],
     'rule': 'stream notify: a stack of 1-5 recording layers (plain / metadata-vetoing / event-vetoing / statically refusing above a level), nested and_then groups, random pass-through wrappers (up to 3 deep), None / empty-Vec '
             'layers, optionally the whole collector in Box<dyn Collect> or Arc; a history of events, spans, enter/exit/record/follows-from/close over 4-10 callsites; compared = the complete ordered log of every notification '
             'every layer observed (incl. on_subscribe, on_register_dispatch, register_callsite, enabled, event_enabled). stream wrapped: C07 stacks (global and per-layer filters) with the same wrappers; compared = receivers per operation. '
